@@ -109,13 +109,21 @@ func (r *Reporter) formatPrettyError(violation Violation) string {
 				// Calculate column position in truncated line
 				displayColumn := calculateDisplayColumn(line, position.Column, MaxLineLength)
 
-				// Add spaces to align the pointer
-				for i := 1; i < displayColumn; i++ {
-					if i-1 < len(truncatedLine) && truncatedLine[i-1] == '\t' {
+				// Add spaces to align the pointer. The column counts bytes but a multi-byte
+				// character occupies one cell, so emit one filler per character, not per byte
+				for i, ch := range truncatedLine {
+					if i >= displayColumn-1 {
+						break
+					}
+					if ch == '\t' {
 						builder.WriteString("\t")
 					} else {
 						builder.WriteString(" ")
 					}
+				}
+				// Column beyond the end of the line
+				for i := len(truncatedLine); i < displayColumn-1; i++ {
+					builder.WriteString(" ")
 				}
 				builder.WriteString("^\n")
 			}
